@@ -218,6 +218,13 @@ def check_pair(prop, pair, tier, keep):
             us = ",".join(items)
         cmd += ["--unwindset", us]
     cmd += list(pair.get("cbmc_flags", []))
+    solver = pair.get("solver", "minisat")
+    if solver == "cadical":
+        cmd += ["--sat-solver", "cadical"]
+        res["backend"] = "cbmc-6.11 SAT (cadical)"
+    elif solver == "z3":
+        cmd += ["--z3"]
+        res["backend"] = "cbmc-6.11 SMT2 (z3 4.8.12)"
     res["cmds"].append(" ".join(cmd))
     rc, out, err, dt = run(cmd, timeout, pair.get("mem_gb", 12))
     res["solver_s"] = round(dt, 2)
